@@ -144,14 +144,14 @@ theorem foldF_deref_err (reg : Bool) : ∀ (sn : List String) (T : GoType), good
   · intro sn T _ _ hs v m e _ h _
     rw [hs]
     exact ⟨v, m, rfl, h, rfl⟩
-  · intro sn T e0 hg hu _ hs ih v m e hw h he
+  · intro sn T e0 hg hu hge0 hs ih v m e hw h he
     rw [hs]
     cases m with
     | zero => simp only [foldF] at h; cases h; exact absurd rfl he
     | succ m =>
       rw [foldF_under m reg hg, hu] at h
       rcases wt_ptr_inv hu hw with rfl | ⟨y, rfl, hy⟩
-      · rw [foldF_ptr_nil] at h; cases h
+      · rw [foldF_ptr_nil _ _ _ (customOf_good reg hge0)] at h; cases h
       · rw [foldF_ptr] at h
         obtain ⟨x, m', h1, h2, h3⟩ := ih y m e hy h he
         exact ⟨x, m', by simp only [deref]; exact h1, h2, by simp only []; omega⟩
@@ -164,7 +164,7 @@ theorem inlineF_deref_err (reg : Bool) : ∀ (sn : List String) (T : GoType), go
   · intro sn T _ _ hs v m e _ h _
     rw [hs]
     exact ⟨v, m, rfl, h, rfl⟩
-  · intro sn T e0 hg hu _ hs ih v m e hw h he
+  · intro sn T e0 hg hu hge0 hs ih v m e hw h he
     rw [hs]
     cases m with
     | zero => simp only [inlineF] at h; cases h; exact absurd rfl he
